@@ -285,7 +285,17 @@ def gen_mapping(rng):
 
 
 def gen_tlv_case(rng):
-    return {"d": gen_mapping(rng), "tl": rng.choice([0, 1, 2, 2, 3, 4]), "ll": rng.choice([0, 1, 2, 3, 3, 4]), "tp": rng.choice(PADS_T), "lp": rng.choice(PADS_L)}
+    tl, ll = rng.choice([0, 1, 2, 2, 3, 4]), rng.choice([0, 1, 2, 3, 3, 4])
+    d = gen_mapping(rng)
+    if rng.random() < 0.6:  # bias towards mappings that fit
+        d = [[t[:tl], v[: max(0, 10 ** ll - 1)] if ll < 4 else v] for t, v in d]
+        seen, out = set(), []
+        for t, v in d:
+            if t not in seen:
+                seen.add(t)
+                out.append([t, v])
+        d = out
+    return {"d": d, "tl": tl, "ll": ll, "tp": rng.choice(PADS_T), "lp": rng.choice(PADS_L)}
 
 
 SOUP = ["0", "0", "1", "2", "5", "9", "-", "+", " ", "a", "A", "_", "\t", "é"]
@@ -293,7 +303,8 @@ SOUP = ["0", "0", "1", "2", "5", "9", "-", "+", " ", "a", "A", "_", "\t", "é"]
 
 def gen_soup(rng):
     n = rng.choice([0, 1, 2, 3, 4, 5, 6, 7, 8, 10, 14, 20])
-    return "".join(rng.choice(SOUP) for _ in range(n))
+    al = SOUP + ["\u0663"] if rng.random() < 0.03 else SOUP
+    return "".join(rng.choice(al) for _ in range(n))
 
 
 def mutate(rng, s):
@@ -310,7 +321,8 @@ def mutate(rng, s):
     return s[:i]
 
 
-INT_AL = ["0", "1", "7", "9", "+", "-", "_", " ", "\t", "\n", "\x0b", "\x1c", "\x1f", "\x7f", "\x85", "\xa0", "\u2003", "\u3000", "a", ".", "x", "\u0663", "\uff11", "\x00"]
+INT_AL = ["0", "1", "7", "9", "+", "-", "_", " ", "\t", "\n", "\x0b", "\x1c", "\x1f", "\x7f", "\x85", "\xa0", "\u2003", "\u3000", "a", ".", "x", "\xe9", "\xb2", "\x00"]
+INT_RARE = ["\u0663", "\uff11", "\u20ac"]  # outside the model's scope (Unicode digits / unknown): answered `unsupported`
 
 NAMES = ["a", "b", "c", "id", "name", "zz"]
 ROW_AL = "ab 01X-9é"
@@ -646,7 +658,8 @@ def _run(ctx):
     icases = [{"s": s} for s in ["", "5", " 5", "+5", "-5", "1_0", "_1", "1_", "1__0", "007", "\x1c5", "\xa05 ", "+ 5", "--5", "0", "-0", " \t12\n"]]
     for _ in range(n):
         k = rng.choice([0, 1, 2, 2, 3, 3, 4, 5, 6])
-        icases.append({"s": "".join(rng.choice(INT_AL) for _ in range(k))})
+        al = INT_AL + INT_RARE if rng.random() < 0.02 else INT_AL
+        icases.append({"s": "".join(rng.choice(al) for _ in range(k))})
     if ctx.tier == "thorough":
         for k in range(0, 6):
             for tup in itertools.product(["0", "7", "+", "-", "_", " ", "a"], repeat=k):
@@ -729,7 +742,7 @@ def _run(ctx):
     ctx.evaluate("fwf_every_row_once", ecases, check_every_row_once, nontrivial=lambda c: len([l for l in c["lines"] if l]) > 1)
 
     ctx.extra["assumptions"] = [
-        "int() is modelled for ASCII text and the listed Unicode blanks (other non-ASCII characters handed to int(): unsupported); validated by stream tlv.int",
+        "int() is modelled for Latin-1 text and the listed Unicode blanks (other characters handed to int(): unsupported); validated by stream tlv.int",
         "tag_fieldlen / len_fieldlen are natural numbers, the paddings single characters, the mapping str -> str (the property's quantifier)",
         "validations / mapping expressions of a fixed-width layout are eval'd Python; theorems take them as arbitrary total functions, the correspondence compares a fixed menu of 8 + 4 expressions",
         "load_fwf is modelled over the list of lines load_lines yields; the implementation side reads a real file (text mode, EOL '\\n')",
